@@ -39,7 +39,7 @@ fn core_only(rng: &mut Rng, with_timers: bool) -> wf::WfRecipe {
     // numbers in step text that no extension reinterprets: not followed by a unit the converter knows (also after a
     // no-break / narrow / ideographic space, which the inline-quantity scan has to step over)
     if rng.chance(1, 2) {
-        let extra = rng.pick_str(&[" Use 2\u{00A0}œufs now.", " Beat 3 eggs.", " Step 2: rest.", " Fold 3\u{3000}times.", " Add 1\u{202F}000 crumbs.", " Turn 2 x.", " −18 is cold.", " Level 5.", " Divide the dough in 2. In a bowl, rest.", " Wait 5 Min. then go.", " Add 3 G of love.", " Use 2 Cups? No: 2 pans."]);
+        let extra = rng.pick_str(&[" Use 2\u{00A0}œufs now.", " Beat 3 eggs.", " Step 2: rest.", " Fold 3\u{3000}times.", " Add 1\u{202F}000 crumbs.", " Turn 2 x.", " −18 is cold.", " Level 5.", " Divide the dough in 2. In a bowl, rest.", " Wait 5 Min. then go.", " Add 3 G of love.", " Use 2 Cups? No: 2 pans.", " Fry the onion in @oil|butter until golden.", " Cover the #pot|pan and wait."]);
         for b in r.blocks.iter_mut().rev() { if let Block::Step(items) = b { match items.last_mut() { Some(Item::Text(t)) => t.push_str(extra), _ => items.push(Item::Text(extra.to_string())) } break; } }
     }
     // with a front matter a `>>` line is ordinary step text unless its key is `[...]` on both sides (and MODES is on)
